@@ -86,7 +86,14 @@ def expected_rows(events):
             i = j
             continue
         if e.value is ... and is_list(e.type):
-            rows.append(("listparent", head))
+            # a non-byte list parent: shown through its elements (zero or one row of its own) - unless no element
+            # event follows, then its own row is the only place the event can be shown: exactly one row
+            j = i + 1
+            while j < n and not isinstance(events[j], MarshalEvent):
+                j += 1
+            has_elems = j < n and events[j].path[:-1] == e.path[:-1] and events[j].path[-1].name == e.path[-1].name \
+                and events[j].path[-1].index is not None
+            rows.append(("listparent", head, not has_elems))
             i += 1
             continue
         if e.value is ...:
@@ -125,13 +132,17 @@ def match_rows(lines, rows, prefix=False):
         li += 1
         return None
 
-    pending = None      # optional row of an (empty) non-byte list parent; may also follow the warnings right after it
+    pending = None      # row of an element-less non-byte list parent; may also follow the warnings right after it
+    must = False        # ... and is mandatory when no element event follows (the only place the event can be shown)
     try:
         for r in rows:
             kind = r[0]
             if pending is not None and kind != "warn":
                 if li < len(toks) and toks[li] == pending:
                     li += 1
+                elif must:
+                    err = need(pending, "list without elements")
+                    return False, err, shown
                 pending = None
             if kind in ("struct", "prim", "warn"):
                 err = need(r[1], kind)
@@ -143,7 +154,7 @@ def match_rows(lines, rows, prefix=False):
                 if li < len(toks) and toks[li] == r[1]:
                     li += 1
                 else:
-                    pending = r[1]
+                    pending, must = r[1], r[2]
             elif kind == "bits":
                 if li >= len(toks):
                     if prefix:
@@ -185,8 +196,11 @@ def match_rows(lines, rows, prefix=False):
                 shown += buf
     except _End:
         return True, "", shown
-    if pending is not None and li < len(toks) and toks[li] == pending:
-        li += 1
+    if pending is not None:
+        if li < len(toks) and toks[li] == pending:
+            li += 1
+        elif must and not prefix:
+            return False, "row missing for list without elements: %r" % (pending,), shown
     if li != len(toks):
         return False, "%d extra row(s), first: %r" % (len(toks) - li, toks[li]), shown
     return True, "", shown
@@ -228,8 +242,20 @@ def check(case):
             res.v("C14.d", "C14.d:input", "%s: hex column of a well-formed input differs from the input" % label)
     if not ok:
         clause = "C14.c" if "bit row" in msg else "C14.b"
-        what = "bits" if clause == "C14.c" else ("warning" if "warning" in msg.lower() and "Warning:" in msg else "buffer" if "byte buffer" in msg else "row")
+        what = "bits" if clause == "C14.c" else "empty-list" if "list without elements" in msg else ("warning" if "warning" in msg.lower() and "Warning:" in msg else "buffer" if "byte buffer" in msg else "row")
         res.v(clause, "%s:%s:%s" % (clause, what, mode), "%s: %s" % (label, msg))
+    # C14.f: "its value column is the value's text form" - rows were compared with format(value) above; format(value) is
+    # compared with the pinned text form of (declared type, integer) here, for valid values of the pinned types
+    from ..layout import layout
+    L = layout()
+    for e, it in zip(events, tp.items):
+        if it[0] != "P":
+            continue
+        want = L.text(it[2], it[3])
+        if want is not None and text_form(e.value) != want:
+            res.v("C14.f", "C14.f:text:%s" % it[2], "%s: value column of %s %s = %d shows %r, its text form is %r" % (
+                label, it[2], it[1], it[3], text_form(e.value), want))
+            break
     res.count("rows", len(lines))
     res.count("rows:bits", sum(1 for r in rows if r[0] == "bits"))
     res.count("rows:buffer", sum(1 for r in rows if r[0] == "buffer"))
